@@ -146,9 +146,18 @@ pub fn bitop_u<const NA: usize, const NB: usize, const M: usize>(op: u8, form: u
 }
 
 /// IBig op IBig vs two's complement over M = max(NA,NB)+1 words
-pub fn bitop_i<const NA: usize, const NB: usize, const M: usize>(sa: Sign, sb: Sign, op: u8, form: u8) {
+pub fn bitop_i<const NA: usize, const NB: usize, const M: usize>(sa: Sign, sb: Sign, op: u8, form: u8, clear_top: bool) {
     let a = any_mag::<NA>();
     let b = any_mag::<NB>();
+    if clear_top {
+        // inline-only regime: keep the result within two words (|x|,|y| < 2^(2W-1))
+        if NA == 2 {
+            nd::assume(a[1] >> (WB - 1) == 0);
+        }
+        if NB == 2 {
+            nd::assume(b[1] >> (WB - 1) == 0);
+        }
+    }
     let sa = if NA == 0 { POS } else { sa };
     let sb = if NB == 0 { POS } else { sb };
     let mut ta = [0 as Word; M];
@@ -197,8 +206,11 @@ pub fn bitop_i<const NA: usize, const NB: usize, const M: usize>(sa: Sign, sb: S
 }
 
 /// !x == -x - 1
-pub fn not_i<const N: usize, const M: usize>(s: Sign, by_ref: bool) {
+pub fn not_i<const N: usize, const M: usize>(s: Sign, by_ref: bool, clear_top: bool) {
     let a = any_mag::<N>();
+    if clear_top && N == 2 {
+        nd::assume(a[1] >> (WB - 1) == 0);
+    }
     let s = if N == 0 { POS } else { s };
     let mut t = [0 as Word; M];
     oracle::to_twos(s, &a, &mut t);
